@@ -103,7 +103,9 @@ PL_CapStep == R(1, 2)
 RC(n, r, what) == [n |-> n, r |-> r, what |-> what]
 PL_Remove == <<RC("p", "plate", "W"), RC("p", "row1", "liquid"), RC("p", "col1", "W"), RC("p", "B1", "enzyme"),
                RC("p", "list2", "W"), RC("p", "all", "solid"), RC("p", "A2", "D"), RC("q", "plate", "liquid"),
-               RC("p", "row2", "E"), RC("s", "-", "solid"), RC("p", "narrowB", "enzyme"), RC("p", "narrowA2", "liquid")>>
+               RC("p", "row2", "E"), RC("s", "-", "solid"), RC("p", "narrowB", "enzyme"), RC("p", "narrowA2", "liquid"),
+               \* the same regions again with another selector (the replay hands the same slice object to both)
+               RC("p", "row1", "W"), RC("p", "col1", "solid"), RC("p", "B1", "W")>>
 FC(n, r, solvent, u) == [n |-> n, r |-> r, solvent |-> solvent, u |-> u]
 PL_Fill == <<FC("p", "plate", "W", "L"), FC("p", "row1", "W", "L"), FC("p", "col2", "D", "g"), FC("p", "B2", "W", "mol"),
              FC("p", "list2", "W", "L"), FC("p", "row2", "N", "g"), FC("q", "all", "W", "L"), FC("t", "-", "W", "L"), FC("p", "narrowB", "W", "L")>>
